@@ -143,11 +143,17 @@ pub fn run_case(case: &Case, names: &HashMap<String, u16>) {
                         _ => KeyValue::Tap,
                     };
                     k.handle_input_event(&KeyEvent { code: osc, value }).expect("handle_input_event");
-                    // repeat events are written immediately
+                    // repeat events are written immediately: report them on their own line
+                    let mut rep: Vec<String> = vec![];
                     for ev in k.kbd_out.outputs.events.drain(..) {
                         if let Some(c) = canon_event(&ev, names) {
-                            pending.push(c);
+                            rep.push(c);
                         }
+                    }
+                    if kind == "r" {
+                        writeln!(o, "R@{} {} : {}", tick, code, rep.join(" ")).unwrap();
+                    } else {
+                        pending.extend(rep);
                     }
                 }
                 "v" => {
